@@ -51,7 +51,7 @@ class Seq(Node):
 
   def sketch(self, seen):
     o, c = {'list': '[]', 'tuple': '()', 'point': ('Point(', ')'), 'pair': ('Pair(', ')'),
-            'tempbox': ('TempBox(', ')')}[self.typ]
+            'tempbox': ('TempBox(', ')'), 'latebox': ('LateBox(', ')')}[self.typ]
     return f'{o}{", ".join(sk(i, seen) for i in self.items)}{c}'
 
 
@@ -188,7 +188,8 @@ class SubConfig(fdl.Config):
 BTYPES = {'Config': fdl.Config, 'Partial': fdl.Partial, 'ArgFactory': fdl.ArgFactory,
           'SubConfig': SubConfig}
 SEQ_MAKERS = {'list': list, 'tuple': tuple, 'point': lambda it: kinds.Point(*it),
-              'pair': lambda it: kinds.Pair(*it), 'tempbox': vnodes.TempBox}
+              'pair': lambda it: kinds.Pair(*it), 'tempbox': vnodes.TempBox,
+              'latebox': vnodes.LateBox}
 
 
 def to_fiddle(n, memo=None):
@@ -256,6 +257,11 @@ def to_direct(n, memo=None):
 LEAF_POOL = [0, 1, -7, 2**70, 1.5, -0.0, 'a', 'name with space', '', None, True, False,
              (1, 2), (), ('x', (3, 4)), b'bytes', kinds.Color.RED, kinds.Level.HIGH,
              kinds.two, kinds.Base, 3 + 4j, ...]
+
+# equal (==, same hash) but distinguishable constants: a traversal that identifies values by
+# equality instead of identity substitutes one for the other
+TWIN_LEAVES = [0.0, (1, 0), (1.0, 0.0), (True, False), (0.0, 'z'), (-0.0, 'z'), 1.0, (1, (0, 2)),
+               (True, (0.0, 2))]
 
 NODE_FNS = [kinds.node, kinds.node2, kinds.posnode, kinds.two, kinds.three, kinds.Base,
             kinds.Mid, kinds.Leaf, kinds.Other, kinds.DC, kinds.DCKwOnly, kinds.PosInit,
